@@ -44,6 +44,33 @@ PLAIN = [
             ChannelEndWithCapacity::Sender => seq![Field::U32(m.serial), Field::Disc(ChannelEnd::Sender.to_u8())],
             ChannelEndWithCapacity::Receiver(c) => seq![Field::U32(m.serial), Field::Disc(ChannelEnd::Receiver.to_u8()), Field::U32(c)],
         }'''),
+ ('create_object_reply', 'CreateObjectReply', [('enum', 'CreateObjectResult'), ('enum', 'CreateObjectReplyKind')], ['CreateObjectReplyKind'],
+  '''match m.result {
+            CreateObjectResult::Ok(c) => seq![Field::U32(m.serial), Field::Disc(CreateObjectReplyKind::Ok.to_u8()), Field::Id(c.0)],
+            CreateObjectResult::DuplicateObject => seq![Field::U32(m.serial), Field::Disc(CreateObjectReplyKind::DuplicateObject.to_u8())],
+        }'''),
+ ('create_service_reply', 'CreateServiceReply', [('enum', 'CreateServiceResult'), ('enum', 'CreateServiceReplyKind')], ['CreateServiceReplyKind'],
+  '''match m.result {
+            CreateServiceResult::Ok(c) => seq![Field::U32(m.serial), Field::Disc(CreateServiceReplyKind::Ok.to_u8()), Field::Id(c.0)],
+            CreateServiceResult::DuplicateService => seq![Field::U32(m.serial), Field::Disc(CreateServiceReplyKind::DuplicateService.to_u8())],
+            CreateServiceResult::InvalidObject => seq![Field::U32(m.serial), Field::Disc(CreateServiceReplyKind::InvalidObject.to_u8())],
+            CreateServiceResult::ForeignObject => seq![Field::U32(m.serial), Field::Disc(CreateServiceReplyKind::ForeignObject.to_u8())],
+        }'''),
+ ('subscribe_event', 'SubscribeEvent', [], ['OptionKind'],
+  '''match m.serial {
+            None => seq![Field::Disc(OptionKind::None.to_u8()), Field::Id(m.service_cookie.0), Field::U32(m.event)],
+            Some(s) => seq![Field::Disc(OptionKind::Some.to_u8()), Field::U32(s), Field::Id(m.service_cookie.0), Field::U32(m.event)],
+        }'''),
+ ('subscribe_all_events', 'SubscribeAllEvents', [], ['OptionKind'],
+  '''match m.serial {
+            None => seq![Field::Disc(OptionKind::None.to_u8()), Field::Id(m.service_cookie.0)],
+            Some(s) => seq![Field::Disc(OptionKind::Some.to_u8()), Field::U32(s), Field::Id(m.service_cookie.0)],
+        }'''),
+ ('unsubscribe_all_events', 'UnsubscribeAllEvents', [], ['OptionKind'],
+  '''match m.serial {
+            None => seq![Field::Disc(OptionKind::None.to_u8()), Field::Id(m.service_cookie.0)],
+            Some(s) => seq![Field::Disc(OptionKind::Some.to_u8()), Field::U32(s), Field::Id(m.service_cookie.0)],
+        }'''),
 ]
 
 # kinds with a value: (file, struct, items, Disc enums, enc_fields, enc_value)   enc_value: Option<SerializedValue> = the
@@ -87,6 +114,11 @@ VALUED = [
             CallFunctionResult::Err(v) => Some(v),
             _ => None,
         }'''),
+ ('call_function2', 'CallFunction2', [], ['OptionKind'],
+  '''match m.version {
+            None => seq![Field::U32(m.serial), Field::Id(m.service_cookie.0), Field::U32(m.function), Field::Disc(OptionKind::None.to_u8())],
+            Some(v) => seq![Field::U32(m.serial), Field::Id(m.service_cookie.0), Field::U32(m.function), Field::Disc(OptionKind::Some.to_u8()), Field::U32(v)],
+        }''', 'Some(m.value)'),
 ]
 
 
@@ -143,9 +175,10 @@ verus! {
 
 //@item core/src/channel_end.rs enum ChannelEnd
 //@item core/src/channel_end.rs enum ChannelEndWithCapacity
+//@item core/src/message.rs enum OptionKind
 
 ''')
-seen = {'ChannelEnd', 'ChannelEndWithCapacity'}
+seen = {'ChannelEnd', 'ChannelEndWithCapacity', 'OptionKind'}
 discs = set()
 def items_text(f, items):
     t = ''
@@ -293,9 +326,119 @@ for f, st, spec, hasv in SER_ONLY:
 
 """)
 
+
+discs.add('BusListenerFilterKind')
+out.append("""// ==== bus listener filters (core/src/bus_listener.rs) and the two kinds that carry one ====
+//@item core/src/bus_listener.rs enum BusListenerFilter
+//@item core/src/bus_listener.rs struct BusListenerServiceFilter
+//@item core/src/bus_listener.rs enum BusListenerFilterKind
+
+impl BusListenerServiceFilter {
+    //@fn core/src/bus_listener.rs BusListenerServiceFilter::any
+        ensures r.object is None, r.service is None,
+    //@end
+    //@fn core/src/bus_listener.rs BusListenerServiceFilter::with_object
+        ensures r.object == Some(object), r.service is None,
+    //@end
+    //@fn core/src/bus_listener.rs BusListenerServiceFilter::with_service
+        ensures r.object is None, r.service == Some(service),
+    //@end
+    //@fn core/src/bus_listener.rs BusListenerServiceFilter::with_object_and_service
+        ensures r.object == Some(object), r.service == Some(service),
+    //@end
+}
+
+// `q` begins with the fields `p`
+spec fn starts_with(q: Seq<Field>, p: Seq<Field>) -> bool {
+    q.len() >= p.len() && forall|i: int| 0 <= i < p.len() ==> q[i] == p[i]
+}
+
+// wire format of a filter: a one-byte shape followed by the ids the shape names (object before service)
+spec fn filter_enc(f: BusListenerFilter) -> Seq<Field> {
+    match f {
+        BusListenerFilter::Object(None) => seq![Field::Disc(BusListenerFilterKind::AnyObject.to_u8())],
+        BusListenerFilter::Object(Some(o)) => seq![Field::Disc(BusListenerFilterKind::SpecificObject.to_u8()), Field::Id(o.0)],
+        BusListenerFilter::Service(s) => match (s.object, s.service) {
+            (None, None) => seq![Field::Disc(BusListenerFilterKind::AnyObjectAnyService.to_u8())],
+            (Some(o), None) => seq![Field::Disc(BusListenerFilterKind::SpecificObjectAnyService.to_u8()), Field::Id(o.0)],
+            (None, Some(v)) => seq![Field::Disc(BusListenerFilterKind::AnyObjectSpecificService.to_u8()), Field::Id(v.0)],
+            (Some(o), Some(v)) => seq![Field::Disc(BusListenerFilterKind::SpecificObjectSpecificService.to_u8()), Field::Id(o.0), Field::Id(v.0)],
+        },
+    }
+}
+
+impl BusListenerFilter {
+    //@fn core/src/bus_listener.rs BusListenerFilter::any_object
+        ensures r == BusListenerFilter::Object(None),
+    //@end
+    //@fn core/src/bus_listener.rs BusListenerFilter::object
+        ensures r == BusListenerFilter::Object(Some(object)),
+    //@end
+    //@fn core/src/bus_listener.rs BusListenerFilter::service
+        ensures r == BusListenerFilter::Service(filter),
+    //@end
+    //@fn core/src/bus_listener.rs BusListenerFilter::any_object_any_service
+        ensures r == BusListenerFilter::Service(BusListenerServiceFilter { object: None, service: None }),
+    //@end
+    //@fn core/src/bus_listener.rs BusListenerFilter::specific_object_any_service
+        ensures r == BusListenerFilter::Service(BusListenerServiceFilter { object: Some(object), service: None }),
+    //@end
+    //@fn core/src/bus_listener.rs BusListenerFilter::any_object_specific_service
+        ensures r == BusListenerFilter::Service(BusListenerServiceFilter { object: None, service: Some(service) }),
+    //@end
+    //@fn core/src/bus_listener.rs BusListenerFilter::specific_object_and_service
+        ensures r == BusListenerFilter::Service(BusListenerServiceFilter { object: Some(object), service: Some(service) }),
+    //@end
+
+    //@fn core/src/bus_listener.rs BusListenerFilter::serialize_into_message
+        ensures
+            final(serializer).fields() == old(serializer).fields() + filter_enc(self),
+            final(serializer).kind() == old(serializer).kind(), final(serializer).has_value() == old(serializer).has_value(),
+            final(serializer).value() == old(serializer).value(),
+    //@end
+
+    //@fn core/src/bus_listener.rs BusListenerFilter::deserialize_from_message
+        ensures
+            // every encoded filter at the front of the remaining fields is read back, and exactly its fields are consumed
+            forall|f: BusListenerFilter| #![trigger filter_enc(f)] starts_with(old(deserializer).rest(), filter_enc(f))
+                ==> r == Ok::<BusListenerFilter, MessageDeserializeError>(f),
+            // only encoded filters are accepted
+            r is Ok ==> starts_with(old(deserializer).rest(), filter_enc(r->Ok_0))
+                && final(deserializer).rest() == old(deserializer).rest().subrange(filter_enc(r->Ok_0).len() as int, old(deserializer).rest().len() as int),
+    //@end
+}
+
+""")
+for f, st in [('add_bus_listener_filter', 'AddBusListenerFilter'), ('remove_bus_listener_filter', 'RemoveBusListenerFilter')]:
+    out.append(f"""//@item core/src/message/{f}.rs struct {st}
+
+impl {st} {{
+    // the listener cookie followed by the filter's fields
+    spec fn enc(m: {st}) -> Seq<Field> {{
+        seq![Field::Id(m.cookie.0)] + filter_enc(m.filter)
+    }}
+
+    //@fn core/src/message/{f}.rs MessageOps@{st}::serialize_message
+        ensures
+            r is Ok,
+            frame_wf(r->Ok_0),
+            frame_kind(r->Ok_0) == MessageKind::{st},
+            frame_fields(r->Ok_0) == {st}::enc(self),
+    //@end
+
+    //@fn core/src/message/{f}.rs MessageOps@{st}::deserialize_message
+        ensures
+            forall|m: {st}| frame_wf(buf) && frame_kind(buf) == MessageKind::{st} && frame_fields(buf) == #[trigger] {st}::enc(m)
+                ==> r == Ok::<{st}, MessageDeserializeError>(m),
+            r is Ok ==> frame_wf(buf) && frame_kind(buf) == MessageKind::{st} && frame_fields(buf) == {st}::enc(r->Ok_0),
+    //@end
+}}
+
+""")
+
 out.append("// discriminant enums (one byte on the wire)\n")
 for d in sorted(discs):
     out.append(f"impl Disc for {d} {{\n    uninterp spec fn to_u8(self) -> u8;\n    uninterp spec fn from_u8(b: u8) -> Option<Self>;\n}}\n")
 out.append("\n} // verus!\n\nfn main() {}\n")
 open(os.path.join(HERE, 'units', 'core_messages', 'unit.rs'), 'w').write(''.join(out))
-print('kinds round trip:', len(PLAIN) + len(VALUED), 'serializer only:', len(SER_ONLY))
+print('kinds round trip:', len(PLAIN) + len(VALUED) + len(SER_ONLY) + 2)
